@@ -469,6 +469,7 @@ def statement_binding(rep, A, which):
         return
     pk = S.call(kpk, [S.call(pkm, [arg(2)])])
     checks = []
+    arr_len = {}
     if "key" in which:
         for r in ("g1", "g2", "x2"):
             checks.append(("key." + r, S.canon(("bytes", fld(pk, pkr[r])))))
@@ -496,8 +497,24 @@ def statement_binding(rep, A, which):
             rp = S.call(rpm, [arg(2)])
             for term, lt, path in type_leaves(prog, ("adt", RCP, ()), rp):
                 checks.append(("range-params." + leaf_name(prog, path), S.canon(("bytes", term))))
-    for name, want in checks:
+                if term[0] == "E" and lt[0] == "array" and isinstance(lt[2], int):
+                    arr_len[S.canon(("bytes", term))] = lt[2]
+    # length of the merchant key's element arrays (const generic argument of its KeyPair)
+    key_n = None
+    for f in adt_fields(prog, MCFG):
+        if f["t"][0] == "adt" and f["t"][1] == KP and f["t"][2] and f["t"][2][0][0] == "const" and isinstance(f["t"][2][0][1], int):
+            key_n = f["t"][2][0][1]
+
+    def reaches(name, want):
         if want in absorbed:
+            return True
+        # a whole array may be absorbed element by element (index loop over a statically known length)
+        n_el = key_n if name.startswith("key.") else arr_len.get(want)
+        if n_el and want[0] == "bytes" and want[1][0] == "E":
+            return all(S.canon(("bytes", ("at", want[1][1], ("int", k)))) in absorbed for k in range(n_el))
+        return False
+    for name, want in checks:
+        if reaches(name, want):
             rep.ok("statement-binding", A.name + "/" + name, sample="%s reaches the challenge hash" % name)
         else:
             rep.fail("statement-binding", A.name + "/" + name,
